@@ -8,13 +8,21 @@ LEVEL = "other"
 QUICK = ["K0"]
 THOROUGH = ALL_CONFIGS
 ASSUMPTIONS = ["address-to-metadata-address arithmetic, shift and mask values are value-level and not decided"]
-LEVEL_NOTE = "partial: decides only the field-isolation discipline of the sub-byte (log_num_of_bits < 3) paths of the side-metadata accessors; value semantics of shifts/masks and of the >= 1 byte paths are not decided"
+LEVEL_NOTE = ("partial: decides the field-isolation clause of the sub-byte (log_num_of_bits < 3) paths of the side-metadata accessors - no raw byte is converted to a value, every "
+              "written-back byte provably keeps the bits outside the field's mask (abstract interpretation, all values), atomic variants are single RMWs; the address arithmetic, the "
+              "value semantics inside the field and the >= 1 byte paths are not decided")
 EXPLANATION = (
     "Partial claim. In every SideMetadataSpec accessor (functions and closures), each conversion from_u8(x) on the sub-byte path has the "
     "shape ((byte & mask) >> lshift) with mask = meta_byte_mask(self) << meta_byte_lshift(self, data_addr) (or captured variables named "
     "mask/lshift holding them), or is the result of fetch_ops_on_bits (whose closure is checked); every byte written back has the shape "
     "(old & !mask) | ((new << lshift) [& mask]); atomic accessors write through a read-modify-write (fetch_update / fetch_and / fetch_or / "
-    "compare_exchange), the only plain byte store being in the non-atomic store()."
+    "compare_exchange), the only plain byte store being in the non-atomic store(). "
+    "Neighbours-preserved clause (rules/bitiso.py): every byte the sub-byte paths write back (plain store, both operands of the byte CAS, the value "
+    "handed back by each fetch_update closure including a closure mapped over the user's update result, the operands of the atomic AND/OR) is evaluated "
+    "in an abstract domain describing the bits OUTSIDE the field's mask {RAW = bits of the byte read, ZERO, ONES, ANY}; stored bytes must be RAW, an AND "
+    "operand ONES, an OR operand ZERO. A shifted value counts as confined to the mask only if it is the accessor's own parameter (documented "
+    "precondition value < 2^bits), an extracted field, or explicitly masked - so a computed value (fetch_add/sub result, user update result) must be "
+    "masked before it is merged. This holds for every value, every field position and every neighbour."
 )
 P = "util::metadata::side_metadata::global::SideMetadataSpec::"
 
@@ -121,3 +129,8 @@ def run(ctx, F):
         rm = [c for g in allf for c in live_calls(g) if c.name in ("fetch_update", "fetch_and", "fetch_or", "compare_exchange", "fetch_ops_on_bits") and (c.name == "fetch_ops_on_bits" or (c.ga and re.search(r"(^u8$|Atomic<u8>|AtomicU8)", c.ga[0])) or "u8" in (c.res or ""))]
         ctx.judge(bool(rm), "C20.extract-before-convert", "%s modifies a sub-byte field through a read-modify-write" % nm, expected="fetch_update / fetch_and / fetch_or / compare_exchange on the byte", found=str(len(rm)),
                   where=where(f), key="C20.extract-before-convert|atomic|" + nm)
+    # ---- C20.neighbours-preserved: abstract interpretation of every byte written back (rules/bitiso.py)
+    from . import bitiso
+    bitiso.check_helpers(ctx, F, "C20.neighbours-preserved", "side")
+    nsites = bitiso.check_isolation(ctx, F, "C20.neighbours-preserved", P, "side")
+    ctx.floor("C20.neighbours-preserved", nsites, 8, "write-back sites of sub-byte side metadata (store, store_atomic, compare_exchange x2, fetch_ops, fetch_and, fetch_or, fetch_update)")
